@@ -118,9 +118,28 @@ func (e *Enc) akaAttr(a model.AkaAttr) error {
 		e.u8(e.eaplib(), FAkaRes)
 		e.raw(a.Value)
 	default:
-		return fmt.Errorf("ref: AKA' attribute %d outside the model", a.Type)
+		// an attribute this model has no layout for (RFC 4187 8.1: type, length in words, value): the value is taken as the
+		// 4L-2 octets behind the length octet, whatever they mean
+		if !e.AkaGeneric {
+			return fmt.Errorf("ref: AKA' attribute %d outside the model", a.Type)
+		}
+		if (n+2)%4 != 0 || (n+2)/4 > 255 || n < 2 {
+			return fmt.Errorf("ref: generic attribute %d needs 4L-2 octets (L <= 255), got %d", a.Type, n)
+		}
+		e.u8(a.Type, FAkaAttrType)
+		e.u8(uint8((n+2)/4), FAkaAttrLen)
+		e.raw(a.Value)
 	}
 	return nil
+}
+
+// EncodeEAPGeneric is EncodeEAP that also accepts attributes of types outside the model (encoded as type | length | value).
+func EncodeEAPGeneric(p model.EAP, order []int) ([]byte, error) {
+	e := &Enc{AkaOrder: order, AkaGeneric: true}
+	if err := e.eap(p); err != nil {
+		return nil, err
+	}
+	return append([]byte(nil), e.b...), nil
 }
 
 // AkaAttrSpan locates an attribute's value octets inside an encoded EAP packet (offset, length),
